@@ -129,7 +129,7 @@ class Printer:
             if opt is not None:
                 s += '[' + self.nodes(opt) + ']'
             if delims:
-                s += (' ' if delims[0][:1].isalpha() else '') + delims[0]
+                s += ' ' + delims[0]      # blanks after a control word are skipped by the tokenizer
                 for i, a in enumerate(args):
                     body = self.nodes(a)
                     if delims[i + 1] == '':
